@@ -13,6 +13,8 @@ claimed = {
          "bounds: the finite input grammar listed in the evidence (no free symbolic bytes: every branch of the real loop is still decided on the symbolic executor); one known finding excluded (streamed long body left unread)", "§0 C02"),
  "C03": ("handler programs (5 statuses × 6 body-building calls incl. streams of known/unknown size and stream writers, ≤3/≤6 arbitrary body bytes, GET or HEAD) through the real ServeConn loop; the wire bytes split under an independent RFC 9112 reader into exactly the responses built: status, body (none for HEAD/204/304), and the next response starts where this one ends",
          "bounds as stated; headers/cookies/compression/trailers/size-mismatching streams/HTTP/1.0 outside", "§0 C03"),
+ "C04": ("sequential HostClient calls against a scripted server whose responses carry arbitrary tag bytes: every successful call returns exactly the body the server produced for the request written at that position of that connection (also when a streamed body is closed early and its tail spells a complete response), no request is written to a connection after an exchange that said close, and such connections are closed",
+         "sequential histories of 2/3 calls; concurrency, PipelineClient and timeouts outside", "§0 C04"),
  "C05": ("one setter call with arbitrary name (≤2 bytes) and value (≤2 quick / ≤3 thorough bytes) per path over 20 request/response setters; the serialised head is re-split by an independent scanner: CR/LF only as CRLF, no early blank line, names among those set, bounded line count",
          "bounds: one call per header, name/value lengths as stated; trailers, proxy CONNECT target and URI setters on Request outside; one known finding excluded (non-token header names)", "§0 C05"),
  "C06": ("request-cookie half: up to 2 SetCookie calls with arbitrary key (≤1/≤2 bytes) and value (≤2 bytes); the serialised Cookie value is parsed by a second RequestHeader: never more cookies than set; cookie-octet keys/values round-trip",
@@ -64,7 +66,6 @@ claimed = {
 }
 
 na = {
- "C04": "not built: needs HostClient.Do against a scripted fake server connection (dial stub, pooled conns, streamed responses); the client path was not brought up under the interpreter in this build",
  "C15": "not built: Shutdown needs a listener, Serve's accept loop and wall-clock polling; not brought up under the interpreter in this build",
  "C16": "not built: TimeoutHandler interleavings need preemption inside the handler goroutine; the cooperative scheduler only switches at blocking points and this harness was not written",
  "C18": "not built: the inductive step over HostClient's pool operations needs a representation invariant for conns/connsWait/wantConn that was not written in this build",
